@@ -954,6 +954,70 @@ def describe(c):
     return d
 
 
+# item -> value documented in the sources' doc comments (redis/src/config.rs, cluster/config.rs, sentinel/config.rs)
+DOCUMENTED_DEFAULTS = {
+    'sentinel.omitted.master_name': 'mymaster', 'sentinel.omitted.server_type': 'Master',
+    'sentinel.omitted.urls': 'None', 'sentinel.omitted.connections_is_none': 'true',
+    'sentinel.omitted.pool_is_none': 'true', 'sentinel.omitted.node_connection_info_is_none': 'true',
+    'sentinel.default.master_name': 'mymaster', 'sentinel.default.server_type': 'Master',
+    'sentinel.default.urls': 'None',
+    'cluster.omitted.urls': 'None', 'cluster.omitted.connections_is_none': 'true', 'cluster.omitted.pool_is_none': 'true',
+    'cluster.omitted.read_from_replicas': 'false',
+    'redis.omitted.url': 'None', 'redis.omitted.connection_is_none': 'true', 'redis.omitted.pool_is_none': 'true',
+    'redis.default.url': 'None', 'redis.default.connection_is_none': 'false',
+    'cluster.default.urls': 'None', 'cluster.default.read_from_replicas': 'false',
+}
+
+
+def documented_defaults():
+    """-> messages: omitted fields of the redis / cluster / sentinel Config that do not take their documented default"""
+    p = subprocess.run([BIN, 'defaults'], stdout=subprocess.PIPE, stderr=subprocess.PIPE, text=True, timeout=120)
+    got = {}
+    for line in p.stdout.splitlines():
+        try:
+            d = json.loads(line)
+            got[d['item']] = d['value']
+        except ValueError:
+            pass
+    msgs = []
+    for k, want in DOCUMENTED_DEFAULTS.items():
+        if got.get(k) != want:
+            msgs.append('omitted / default %s is %r, the documented default is %r' % (k, got.get(k), want))
+    return msgs
+
+
+def sentinel_probe():
+    """-> messages: a scripted sentinel + master; the named sentinel is asked for the configured master name, and
+    the database / password of node_connection_info reach the master (and nothing of the kind when it is absent),
+    whichever way the sentinels are named"""
+    p = subprocess.run([BIN, 'sentinel'], stdout=subprocess.PIPE, stderr=subprocess.PIPE, text=True, timeout=300)
+    rows = []
+    for line in p.stdout.splitlines():
+        try:
+            rows.append(json.loads(line))
+        except ValueError:
+            pass
+    msgs = []
+    if len(rows) != 8:
+        return ['sentinel probe: %d of 8 cases ran (%s)' % (len(rows), p.stderr[-300:])], 0
+    for r in rows:
+        what = 'sentinel::Config naming its sentinels by %s, master name %s, node_connection_info %s' % (
+            'urls' if r['via_urls'] else 'connections', 'as the server knows it' if r['right_name'] else 'unknown to the server',
+            'set (db 5, password)' if r['with_info'] else 'absent')
+        if not r['asked_sentinel']:
+            msgs.append('%s: the named sentinel was never asked' % what)
+        if r['right_name']:
+            if r['got'] != 1:
+                msgs.append('%s: no connection to the master (code %d)' % (what, r['got']))
+            want_auth = ['AUTH s3cret'] if r['with_info'] else []
+            want_sel = ['SELECT 5'] if r['with_info'] else []
+            if sorted(set(r['auth'])) != want_auth or sorted(set(r['select'])) != want_sel:
+                msgs.append('%s: the master received %s / %s, expected %s / %s' % (what, r['auth'], r['select'], want_auth, want_sel))
+        elif r['got'] == 1:
+            msgs.append('%s: a connection was handed out although the sentinel does not know that master' % what)
+    return msgs, len(rows)
+
+
 def run_engine(seed, tier):
     ok, out = cargo_build()
     if not ok or not os.path.exists(BIN):
@@ -981,6 +1045,14 @@ def run_engine(seed, tier):
             res['props'][p]['mismatches'].insert(0, dict(trace=-1, step=0, what=msg, impl='source of /repo', model='model records'))
         res['props'][p]['steps'] += ninv
     res['histograms']['inventory_items_compared'] = ninv
+    # what an omitted section or field deserialises to, against the documented defaults
+    for msg in documented_defaults():
+        res['props']['C19']['monitor_fails'].append(dict(trace=-1, step=0, msg=msg))
+    res['histograms']['documented_defaults_compared'] = len(DOCUMENTED_DEFAULTS)
+    smsgs, nrows = sentinel_probe()
+    for msg in smsgs:
+        res['props']['C19']['monitor_fails'].append(dict(trace=-1, step=0, msg=msg))
+    res['histograms']['sentinel_probe_cases'] = nrows
     res.update(ntraces=len(cases), ncorpus=0, key=key, seed=seed, tier=tier,
                timing=dict(gen_s=round(t1 - t0, 1), model_s=round(t2 - t1, 1), analyze_s=round(time.time() - t2, 1)))
     keep = set()
